@@ -96,6 +96,15 @@ CLAIMED = {
     note="Lattice polygons only; unbiasedness for arbitrary emissivity functions is implied by the linear/constant tests, not decided; statistical part is seeded and deterministic per VERIF_SEED.",
     technique="TLA+ exact shoelace orbit table enumerated by TLC, one voxel test per orbit element; seeded estimator check",
     design="4.17"),
+ "C11": dict(
+    text="Sart.tla is the SART iteration as a state machine over exact rationals (update with relaxation, row/column sums, clipping, 1-D chain Laplacian penalty, convergence measure, "
+         "stopping rule); TLC explores every instance over small integer matrices (all 2x2 over {0,1,2}, 2x3/3x2 over {0,1} incl. zero rows/columns), measurements, three initial guesses, "
+         "two relaxations, with/without penalty, checks non-negativity, the fixed-point and unseen-voxel invariants, and every terminal state (iterate, convergence list, iteration count) is "
+         "compared with invert_sart / invert_constrained_sart (1e-10). LeastSquares.tla computes the exact minimisers of the Tikhonov-regularised problem with two unknowns by Cramer's rule "
+         "and active-set enumeration, checks normal equations / KKT uniqueness, and is compared with invert_regularised_lstsq / _nnls (solution and reported residual); invert_svd by certificate.",
+    note="Tiny integer instances only (32-bit exact rationals limit SART to 2 iterations, 3 for 3x1); large / ill-conditioned systems and the OpenCL variant are not exercised; default e^-1 guess not used.",
+    technique="TLA+ SART state machine over exact rationals + exact KKT minimisers, TLC-enumerated instances compared with the solvers",
+    design="4.11"),
 }
 
 NOT_YET = {}
